@@ -417,7 +417,12 @@ func sortStrings(a []string) {
 }
 
 // genStanza returns one inbound stanza and its labels.
-func genStanza(r *hx.Rand, fam string) (string, []string) {
+func genStanza(r *hx.Rand, fam string) (string, []string) { return genStanzaD(r, fam, true) }
+
+// genStanzaD is genStanza with byte-level damage optional: a stanza that is not
+// well-formed ends the stream (or leaves an element open that swallows what
+// follows), so sequences that go on after it use well-formed mutants only.
+func genStanzaD(r *hx.Rand, fam string, damageOK bool) (string, []string) {
 	list := canon[fam]
 	s := list[r.Intn(len(list))]
 	labels := []string{"fam/" + fam}
@@ -425,6 +430,9 @@ func genStanza(r *hx.Rand, fam string) (string, []string) {
 		return s, append(labels, "mut/none")
 	}
 	n := r.Intn(10)
+	if !damageOK && n >= 9 {
+		n = 5
+	}
 	switch {
 	case n < 2: // canonical
 		return s, append(labels, "mut/none")
